@@ -445,7 +445,21 @@ impl<'a> VisitMut for Rw<'a> {
                 },
                 Stmt::Macro(m) => self.strip_attrs(&mut m.attrs, "stmt-macro"),
                 Stmt::Item(Item::Use(u)) => {
-                    // `use` statements inside fn bodies: dropped when cfg-false, kept otherwise
+                    // `use` statements inside fn bodies: dropped when cfg-false, kept otherwise; path prefixes rewritten (R5)
+                    let txt = squash(&u.tree.to_token_stream().to_string());
+                    for (from, to) in &self.ctx.path_rw {
+                        let f = from.join("::");
+                        if txt.starts_with(&(f.clone() + "::")) {
+                            let rest = &txt[f.len()..];
+                            let nt = format!("{}{}", to.join("::"), rest).replace("as", " as ");
+                            // `as` only occurs as the rename keyword in these generated `use` lines
+                            if let Ok(tree) = syn::parse_str::<syn::UseTree>(&nt) {
+                                self.log.add("R5", "use-path", format!("{txt} => {nt}"));
+                                u.tree = tree;
+                            }
+                            break;
+                        }
+                    }
                     self.strip_attrs(&mut u.attrs, "use")
                 },
                 Stmt::Item(_) => Ok(true),
@@ -590,7 +604,7 @@ impl<'a> VisitMut for Rw<'a> {
             }
         }
         // R6: whole-expression instantiation (paths to abstract constants, e.g. `P::BaseField::ONE` => `F::one()`)
-        if matches!(e, Expr::Path(_) | Expr::Call(_) | Expr::MethodCall(_)) && !self.ctx.expr_rw.is_empty() {
+        if matches!(e, Expr::Path(_) | Expr::Call(_) | Expr::MethodCall(_) | Expr::Binary(_) | Expr::Unary(_)) && !self.ctx.expr_rw.is_empty() {
             let txt = squash(&e.to_token_stream().to_string());
             for (from, to) in &self.ctx.expr_rw {
                 if *from == txt {
